@@ -1,5 +1,7 @@
 import GenjaxModel.Proofs.GfiRegen
 import GenjaxModel.Proofs.GfiValues
+import GenjaxModel.Proofs.GfiRegenMH   -- (c09gfi block at the end of this file)
+import GenjaxModel.Proofs.GfiAssessCond
 /-!
 # C04 — regenerate resamples exactly the selection and returns the MH weight
 -/
@@ -164,4 +166,68 @@ example : ∃ s, regenScen valExP Cfg.spec condExDeep condExDeepArgs valExSel va
 end Genjax
 /-! ==============================================================================================
     END work package `gfivalues`
+    ============================================================================================== -/
+
+/-! ==============================================================================================
+    BEGIN work package `c09gfi`: the "MH weight" clause of C04 in the PROBABILISTIC semantics
+    (`GF.regenerateD`, see the `c09gfi` block of Props/C09.lean for the notation).
+    ============================================================================================== -/
+namespace Genjax
+open Smc Smc.FinDist
+
+section C04Gfi
+variable {K : Type} [Field K] {R : Type} [AddCommGroup R]
+variable (e : R → K) (pd : PD K) (P : Prims R) (cfg : Cfg)
+
+/-- Linear-domain restatement of `C04_regenerate_weight` through `regenerateD` (`_partial`:
+    Cond-free programs): jointly with the event "the regenerated choices are `x'`", the reported
+    weight is `unselMass(x') · unselE t` — the product over the UNSELECTED sites of
+    `pm(new parameters, kept value) · e(old score)`, i.e. (old score = -log old mass) the ratio of
+    the joint densities divided by the ratio of the densities of the selected choices — and the
+    event has probability `selMass(x')` (0 unless `x'` agrees with the old choices off the
+    selection).  `Φ` is an arbitrary function of (return value, weight); new arguments `args` may
+    differ from the arguments `a` of the old trace.  Missing: programs with Cond. -/
+theorem C04_regenerate_weight_linear_partial (hpd : pd.WF) (hsr : cfg.scanRegenDefined = true)
+    (g : GF) (hcf : g.condFree = true) (t : Tr R) (a : List Val) (s : Sel) (x x' : CM)
+    (args : List Val) (hc : g.Coh P a t) (hcan : g.Canon t) (hx : t.choices = some x)
+    (hs' : g.skel = some x'.skel) (Φ : Val → K → K) :
+    E (g.regenerateD e pd P cfg t s args) (optK (chW x' Φ))
+      = if CM.eqOff s x x' then
+          (match g.assessS pd x' s args with
+           | none => 0
+           | some o => o.1.1 * Φ o.2 (o.1.2 * g.unselE e t s))
+        else 0 := by
+  have hs : g.skel = some x.skel := by
+    rw [← canon_choices_skel P g a t hcan hc, hx]; rfl
+  exact regenD_weight_law e pd P cfg hpd hsr g hcf t a s x x' args hc hx hs hs' Φ
+
+/-- … and for a coherent old trace `unselE t` IS the reciprocal of the product of the masses of its
+    unselected sites (when that product is non-zero): with the theorem above, the weight on the
+    event is `unselMass(x') / unselMass(x)` = [π(x')/π(x)] / [selMass(x')/selMass(x)]. -/
+theorem C04_unselE_is_reciprocal_partial
+    (hinv : ∀ d a v, pd.pm d a v ≠ 0 → e (-(P.lp d a v)) * pd.pm d a v = 1)
+    (g : GF) (hcf : g.condFree = true) (args : List Val) (t : Tr R) (x : CM) (s : Sel)
+    (hc : g.Coh P args t) (hx : t.choices = some x) (hne : unselMass pd g x s args ≠ 0) :
+    g.unselE e t s * unselMass pd g x s args = 1 ∧
+    pmassOf (g.assessP pd x args) = selMass pd g x s args * unselMass pd g x s args := by
+  obtain ⟨A, B, hAB, hU⟩ := coh_assessS e pd P hinv g hcf args t x s hc hx
+  refine ⟨?_, pmassOf_eq_sel_mul_unsel pd g x s args⟩
+  unfold unselMass at hne ⊢
+  rw [hAB] at hne ⊢
+  exact hU hne
+
+end C04Gfi
+
+/-- non-vacuity: in the two-site instance of Props/C09.lean (`x ~ D(0); y ~ D(x)`, selection `"x"`,
+    old choices `{x: 0, y: 1}`) the kernel specification reaches `{x: 3, y: 1}` with proposal mass
+    `1/8` and weight `1/2`, and the old trace's `unselE` is `4 = 1/(1/4)` -/
+example : ∃ t w, mhExG.generate mhExP Cfg.spec (some (mhExX 0 1)) [.num 0] = some (t, w) ∧
+    mhExG.regenW mhExE mhExPD Cfg.spec t (.str "x") (mhExX 3 1) [.num 0]
+      = some ((1/8, 1/2), .num 4) ∧
+    mhExG.unselE mhExE t (.str "x") = 4 ∧ unselMass mhExPD mhExG (mhExX 0 1) (.str "x") [.num 0] = 1/4 :=
+  ⟨_, _, rfl, by decide +kernel, by decide +kernel, by decide +kernel⟩
+
+end Genjax
+/-! ==============================================================================================
+    END work package `c09gfi`
     ============================================================================================== -/
